@@ -930,7 +930,7 @@ func (g *gen) behC19() M {
 		cfg["auth"] = "clear"
 	}
 	if g.chance(0.6) {
-		cfg["term"] = "ok"
+		cfg["term"] = g.pick("ok", "ok", "fail")
 	}
 	steps := []any{startup(g.text(8))}
 	if cfg["auth"] == "clear" {
